@@ -107,8 +107,9 @@ impl Monitor for C06 {
                 out.count("c06.explicit_checks_recognising_slashing");
             }
         }
-        // release groups: loss of stake slashed while unbonding is spread pro rata
-        if let Op::Withdraw { .. } = c.op {
+        // release groups (the batches whose `released` flag flips in this step, whichever message performs the
+        // release): loss of stake slashed while unbonding is spread pro rata
+        {
             let group: Vec<u64> = post.history.iter().filter(|h| h.released && pre.hist(h.batch_id).map(|p| !p.released).unwrap_or(false)).map(|h| h.batch_id).collect();
             if !group.is_empty() {
                 let arrived = self.inflow + self.donated;
@@ -146,8 +147,11 @@ impl Monitor for C06 {
                     out.distinct(&("release_loss", group.len().min(6), parts.len().min(8), decade(l), decade(total_u)));
                 }
             }
-            self.inflow = 0;
-            self.donated = 0;
+            // the hub re-bases its balance bookkeeping at a release and at every successful withdrawal
+            if !group.is_empty() || matches!(c.op, Op::Withdraw { .. }) {
+                self.inflow = 0;
+                self.donated = 0;
+            }
         }
     }
 }
